@@ -26,7 +26,7 @@ type Op struct {
 	K    string `json:"k"`              // reg clear cleartype
 	From string `json:"from,omitempty"` // may be ""
 	To   string `json:"to,omitempty"`
-	F    string `json:"f,omitempty"` // nil faithful fail ret:<name>
+	F    string `json:"f,omitempty"` // nil faithful fail ret:<name> typed (registered through RegisterUpcast[From, To] with Go types carrying the names)
 }
 
 type Case struct {
@@ -180,12 +180,21 @@ func run(c *Case) *vkit.Outcome {
 		switch op.K {
 		case "reg":
 			want := accept(g, op)
-			err := eventbus.RegisterUpcastFunc(h.bus, op.From, op.To, h.upcaster(op, i))
+			var err error
+			if typedErr, isTyped := error(nil), false; op.F == "typed" {
+				if typedErr, isTyped = h.regTyped(op.From, op.To, i); isTyped {
+					err = typedErr
+					o.Class("registration_through_the_typed_API")
+				}
+			}
+			if op.F != "typed" {
+				err = eventbus.RegisterUpcastFunc(h.bus, op.From, op.To, h.upcaster(op, i))
+			}
 			if !want {
 				rejected[i] = true
 			}
 			if (err == nil) != want {
-				o.Failf("", "op %d: RegisterUpcastFunc(%q -> %q, f=%s) returned %v; the model %s it (graph %v)", i, op.From, op.To, op.F, err, map[bool]string{true: "accepts", false: "rejects"}[want], g)
+				o.Failf("", "op %d: registering %q -> %q (f=%s; typed = through RegisterUpcast with Go types carrying the names, otherwise RegisterUpcastFunc) returned %v; the model %s it (graph %v)", i, op.From, op.To, op.F, err, map[bool]string{true: "accepts", false: "rejects"}[want], g)
 				return o
 			}
 			if want {
